@@ -28,7 +28,9 @@ RULE = ("file sizes 0..300 (quick: a seeded sample that always contains 0,1,2,3,
         "(status, Content-Range, Content-Length, Accept-Ranges, Content-Type, ETag, empty body) and with the model; conditional GET/HEAD "
         "(If-None-Match with the file's ETag / * / a foreign tag, with and without Range) must both answer 304 resp. as without it; "
         "multi-segment files (CHK with 64-byte segments, one production-size 3-segment MDMF file of 2*128KiB+4321 bytes in the fixed "
-        "corpus) get Range headers around every segment boundary, body == file slice and len(body) == Content-Length")
+        "corpus) get Range headers around every segment boundary, body == file slice and len(body) == Content-Length; a fixed 3-of-5 "
+        "grid with CHK segment size 66 (not a multiple of the AES block) with ranges starting 1..15 bytes after every segment "
+        "boundary; the random routed family draws k in {2,3,5} and small max_segment_size")
 TRUSTED = ["lean/Tahoe/Web/Range.lean is a hand transcription of parse_range_header/render (str.split, str.strip and int() modelled for ASCII)",
            "twisted.web.test.requesthelper.DummyRequest stands for the HTTP request (headers in, status/headers/body out)",
            "harness/grid.py (in-process grid, virtual clock) and the raw HTTP/1.0 feeding shim RoutedWeb in harness/props/c40.py"]
@@ -488,28 +490,32 @@ def routed_corpus_headers(n):
             "bytes=-7", "bytes=-0", "bytes=2-5, 9-12", "bytes=9-2", "bytes=abc", "chars=0-5"]
 
 
-def make_plans(ctx, rng):
+def make_plans(ctx, rng, cfg=(2, 3, 4, 64)):
     """[{kind, chain (sizes: created, then overwritten ...)}]: literal, CHK, SDMF and MDMF; the mutable ones are
     read as created, after a shorter and after a longer overwrite (and once emptied)"""
     plans = []
+    k, maxseg = cfg[0], cfg[3]
+
+    def chk(n):
+        return {"kind": "chk", "chain": [n], "seg": next_multiple(min(maxseg, n), k), "after": True}
+    mseg = next_multiple(128 * 1024, k)
     if ctx.tier == "thorough":
         for n in sorted({0, 1, 2, LIT_MAX - 1, LIT_MAX} | {rng.randrange(0, LIT_MAX + 1) for _ in range(6)}):
             plans.append({"kind": "lit", "chain": [n]})
         for n in sorted({LIT_MAX + 1, 63, 64, 65, 128, 129, 300} | {rng.randrange(LIT_MAX + 1, 700) for _ in range(6)}):
-            plans.append({"kind": "chk", "chain": [n], "seg": CHK_SEG})
+            plans.append(chk(n))
         for kind in ("sdmf", "mdmf"):
             for _ in range(4):
                 a = rng.randrange(1, 300)
                 plans.append({"kind": kind, "chain": [a, rng.randrange(0, a), rng.randrange(a + 1, 700), rng.choice([0, 1, 64, 65])]})
             plans.append({"kind": kind, "chain": [0, 70, 3]})
-        plans.append({"kind": "mdmf", "chain": [rng.choice([1, 2, 3]) * MDMF_SEG + rng.randrange(1, MDMF_SEG)], "seg": MDMF_SEG,
-                      "only_seg": True})
-        plans.append({"kind": "mdmf", "chain": [2 * MDMF_SEG], "seg": MDMF_SEG, "only_seg": True})      # a multiple of the segment size
+        plans.append({"kind": "mdmf", "chain": [rng.choice([1, 2, 3]) * mseg + rng.randrange(1, mseg)], "seg": mseg, "only_seg": True})
+        plans.append({"kind": "mdmf", "chain": [2 * mseg], "seg": mseg, "only_seg": True})      # a multiple of the segment size
     else:
         plans.append({"kind": "lit", "chain": [0]})
         plans.append({"kind": "lit", "chain": [rng.randrange(1, LIT_MAX + 1)]})
-        plans.append({"kind": "chk", "chain": [rng.choice([LIT_MAX + 1, 64, 65, 129])], "seg": CHK_SEG})
-        plans.append({"kind": "chk", "chain": [rng.randrange(130, 400)], "seg": CHK_SEG})
+        plans.append(chk(rng.choice([LIT_MAX + 1, 64, 65, 129])))
+        plans.append(chk(rng.randrange(130, 400)))
         for kind in ("sdmf", "mdmf"):
             a = rng.randrange(60, 200)
             plans.append({"kind": kind, "chain": [a, rng.randrange(1, a), rng.randrange(a + 1, 400), 0]})
@@ -520,7 +526,35 @@ HEAD_FIELDS = [("status", None), ("content-range", "content-range"), ("content-l
                ("accept-ranges", "accept-ranges"), ("content-type", "content-type")]
 
 
-def run_routed(ctx, plans, cases, impl, lines, hand, only=None, corpus=False):
+def next_multiple(n, k):
+    return ((n + k - 1) // k) * k
+
+
+DEFAULT_CFG = (ROUTED_K, 3, 4, CHK_SEG)          # (k, n, servers, client max_segment_size)
+AES_CFG = (3, 5, 5, 64)                          # CHK segment size 66: not a multiple of the AES block (seeded C40-e)
+# CHK file of 6 segments of 66 bytes; `after` adds ranges starting 1..15 bytes after every segment boundary
+ROUTED_CORPUS_PLANS_AES = [{"kind": "chk", "chain": [334], "seg": 66, "after": True, "only_seg": True},
+                           {"kind": "chk", "chain": [133], "seg": 66, "after": True}]
+
+
+def after_boundary_headers(n, seg):
+    """ranges whose first byte lies 1..15 bytes after a segment boundary (closed, open-ended and suffix forms)"""
+    hs = []
+    for B in range(seg, n, seg):
+        for d in range(1, 16):
+            a = B + d
+            if a >= n:
+                break
+            hs.append("bytes=%d-%d" % (a, a + 20))
+            if d in (1, 2, 7, 13, 15):
+                hs.append("bytes=%d-" % a)
+                hs.append("bytes=-%d" % (n - a))
+            if d in (3, 9):
+                hs.append("bytes=%d-%d" % (a, a))
+    return hs
+
+
+def run_routed(ctx, plans, cases, impl, lines, hand, only=None, corpus=False, cfg=DEFAULT_CFG):
     """GET and HEAD through the real resource tree for every (file state, Range header).
     `only` = (chain, hdr, inm) restricts to one state/header (replay)."""
     import grid
@@ -533,7 +567,8 @@ def run_routed(ctx, plans, cases, impl, lines, hand, only=None, corpus=False):
     base = grid.fresh_dir("c40")
     try:
         with grid.Runtime(seed=0 if corpus else ctx.seed, policy="fifo") as rt:
-            g = grid.Grid(base, rt, num_servers=4, num_clients=1, k=ROUTED_K, happy=1, n=3, max_segment_size=CHK_SEG)
+            g = grid.Grid(base, rt, num_servers=cfg[2], num_clients=1, k=cfg[0], happy=1, n=cfg[1], max_segment_size=cfg[3])
+            ctx.count("routed-grid:k=%d,n=%d,maxseg=%d" % (cfg[0], cfg[1], cfg[3]))
             c = g.clients[0]
             web = RoutedWeb(rt, c)
             for plan in plans:
@@ -570,6 +605,8 @@ def run_routed(ctx, plans, cases, impl, lines, hand, only=None, corpus=False):
                                                                 routed_headers(n, rng, ctx.tier == "thorough" and depth == 0))
                         if plan.get("seg"):
                             base = base + [None, "bytes=%d-" % (n - 1), "bytes=%d-%d" % (n - 3, n + 9)] + seg_headers(n, plan["seg"])
+                            if plan.get("after"):
+                                base = base + after_boundary_headers(n, plan["seg"])
                             ctx.count("routed-segment-boundary-headers:%s" % kind, len(seg_headers(n, plan["seg"])))
                         pairs = [(h, None) for h in base]
                         if plan.get("only_seg"):
@@ -601,7 +638,7 @@ def run_routed(ctx, plans, cases, impl, lines, hand, only=None, corpus=False):
                             resp = (status, rh.get("content-range"), rh.get("content-length"), body)
                             got[m] = (resp, rh)
                             case = {"route": "site", "kind": kind, "chain": chain[:depth + 1], "size": n, "method": m, "hdr": h, "inm": inm,
-                                    "seg": plan.get("seg")}
+                                    "seg": plan.get("seg"), "cfg": list(cfg), "after": plan.get("after")}
                             ctx.case(("site", kind, n, m, h, inm) if (h or inm) else None)
                             ctx.count("routed:%s:%s" % (kind, meth))
                             # handler-level correspondence (render_GET / render_HEAD model incl. ETag and If-None-Match)
@@ -617,7 +654,7 @@ def run_routed(ctx, plans, cases, impl, lines, hand, only=None, corpus=False):
                             lines.append("c40 %d %s %s" % (n, m, "none" if h is None else hx(h.encode("ascii"))))
                         (gresp, gh), (hresp, hh) = got["G"], got["H"]
                         hcase = {"route": "site", "kind": kind, "chain": chain[:depth + 1], "size": n, "method": "H", "hdr": h, "inm": inm,
-                                 "seg": plan.get("seg")}
+                                 "seg": plan.get("seg"), "cfg": list(cfg), "after": plan.get("after")}
                         what = "Range %r%s on a %d-byte %s file (%s)" % (h, "" if inm is None else " + If-None-Match (%s)" % inm, n, kind, state)
                         # --- HEAD: the same status and headers as GET, no body
                         for name, key in HEAD_FIELDS:
@@ -674,7 +711,8 @@ def run(ctx):
         c = ctx.replay["case"]
         if c.get("route") == "site":
             routed_only = (c["chain"], c["hdr"], c.get("inm"))
-            plans = [{"kind": c["kind"], "chain": c["chain"], "seg": c.get("seg")}]
+            plans = [{"kind": c["kind"], "chain": c["chain"], "seg": c.get("seg"), "after": c.get("after")}]
+            replay_cfg = tuple(c.get("cfg") or DEFAULT_CFG)
         else:
             for m in "GH":
                 reqs.append((c.get("node", "lit"), c["size"], m, c["hdr"]))
@@ -698,7 +736,9 @@ def run(ctx):
                     reqs.append((kind, n, m, h))
                 if kind == "lit" and h is not None and rng.random() < 0.05:
                     reqs.append(("fake", n, "G", h))
-        plans = [] if corpus_only else make_plans(ctx, rng)
+        k = rng.choice([2, 3, 5])
+        rcfg = (k, k + 2, k + 2, rng.choice([33, 40, 50, 64, 70, 100]))
+        plans = [] if corpus_only else make_plans(ctx, rng, rcfg)
     impl = []
     cases = []
     got_by_key = {}
@@ -733,8 +773,9 @@ def run(ctx):
     hand = ([], [], [])
     if not ctx.replay:
         run_routed(ctx, ROUTED_CORPUS_PLANS, cases, impl, lines, hand, corpus=True)      # fixed routed corpus first
+        run_routed(ctx, ROUTED_CORPUS_PLANS_AES, cases, impl, lines, hand, corpus=True, cfg=AES_CFG)
     if plans:
-        run_routed(ctx, plans, cases, impl, lines, hand, only=routed_only)
+        run_routed(ctx, plans, cases, impl, lines, hand, only=routed_only, cfg=replay_cfg if ctx.replay else rcfg)
     model = ctx.model(lines)
     ctx.compare("FileDownloader.render directly and through Site/Root/FileNodeHandler (status, Content-Range, Content-Length, body)",
                 cases, impl, model)
